@@ -47,6 +47,7 @@ def run(tier, seed):
         obs.append({"obs": "oracle", "name": "c01", "params": pv, "t": pts[0][0], "x": pts[0][1]})
         p["obs"] = obs
         out.append(p)
+    out.append(carrier([{"obs": "oracle", "name": "c10_axis", "seed": seed, "n": 12 if tier == "quick" else 120}]))
     ex = checklib.explore(out, keys=KEYS, per_prog_timeout=30.0)
     nontrivial = set()
     for p, a in zip(out, ex["mres"]):
@@ -60,5 +61,6 @@ def run(tier, seed):
                     "otherwise equal constant weight; one_step at 3 (quick) / 6 (thorough) points (t, x) including times between "
                     "output times and boundary states, compared with the model; on the implementation: evaluation at a sequence of "
                     "points vs a freshly built runner at each point (bit-exact), raw flow outputs and computed values along a "
-                    "trajectory vs one_step at (times[i], outputs[i]); non-trivial = the rates differ between two points",
+                    "trajectory vs one_step at (times[i], outputs[i]); sigmoidal / linear / piecewise functions over another x axis "
+                    "(compartment value, shifted or scaled time, parameter) vs the same function of plain time at the axis value; non-trivial = the rates differ between two points",
             "dist": dist(out)}
